@@ -6,6 +6,7 @@ import (
 	"time"
 
 	"github.com/formancehq/numscript/internal/verifmc/env"
+	"github.com/formancehq/numscript/internal/verifmc/gen"
 	"github.com/formancehq/numscript/internal/verifmc/mc"
 	"github.com/formancehq/numscript/internal/verifmc/ref"
 )
@@ -107,6 +108,33 @@ func runMoney(w *mc.Worker, id string) {
 	}
 	runOriginSeqSpace(w, "origin-L2", 1, 2, peers, func(c *seqCase, oc *originCase) {
 		judgeSeqCaseX(w, c, nil, oc, owns, nontriv, id == "C02", env.Exact)
+	})
+	// a kept share larger than the first, or the first two, of three senders
+	w.Stage("three-senders-kept", "send $amt from {@a @b @world} to {max K kept, remaining to @x} and to {max K kept, max 1 to @y, remaining to @x}; K in {1,2,3,4}; balances {0,1,2,3}^2; amounts {1..6}", func() {
+		w.Outer("three-senders-kept/dst", 0, func(o *mc.Explorer) {
+			k := []string{"1", "2", "3", "4"}[o.Choose(4)]
+			d := &gen.DstInorder{Clauses: []*gen.DstClause{{Cap: gen.Mon("USD", k), To: &gen.Kept{}}}, Remaining: &gen.To{D: da("x")}}
+			if o.Choose(2) == 1 {
+				d.Clauses = append(d.Clauses, &gen.DstClause{Cap: gen.Mon("USD", "1"), To: &gen.To{D: da("y")}})
+			}
+			prog := &gen.Program{Stmts: []gen.Stmt{&gen.Send{Sent: &gen.SentLit{E: gen.V("amt")}, Src: lst(sa("a"), sa("b"), sa("world")), Dst: d}}}
+			declareUsed(prog)
+			text := gen.Text(prog)
+			if !w.Mine(text) {
+				return
+			}
+			w.Owned()
+			pr, ok := mustParse(w, text)
+			if !ok {
+				return
+			}
+			bals := bigs(0, 1, 2, 3)
+			w.Inner(0, func(in *mc.Explorer) {
+				bal := env.Bal{"a": {"USD": bals[in.Choose(4)]}, "b": {"USD": bals[in.Choose(4)]}}
+				vars := map[string]string{"amt": fmt.Sprint("USD ", 1+in.Choose(6))}
+				judgeOne(w, prog, text, pr, vars, bal, nil, owns, nontriv)
+			})
+		})
 	})
 	if w.Tier == "quick" {
 		stage("send-w2", "source+destination trees of joint weight <= 2, depth <= 1; balances {0,1,3,-2}^2; amounts {0,1,2,4,7}", 2, 1, 1, balQ, amtQ)
